@@ -39,6 +39,8 @@ func (comp) NewCase(h []string) kit.Runner {
 }
 
 
+// probe (debugging aid): `vh_nocrash probe < rules.yaml` prints what the real loader, the request
+// path, the sampler factory and three decisions do with one rules file.
 func probe() {
 	data, _ := io.ReadAll(os.Stdin)
 	cfg, verdict, detail := loadRules(data)
@@ -81,28 +83,6 @@ func child() {
 func main() {
 	if len(os.Args) > 1 && os.Args[1] == "probe" {
 		probe()
-		return
-	}
-	if len(os.Args) > 1 && os.Args[1] == "bench" {
-		y := []byte("RulesVersion: 2\nSamplers:\n  __default__:\n    DynamicSampler:\n      SampleRate: 2\n      FieldList: [a]\n")
-		t := time.Now()
-		for i := 0; i < 50; i++ {
-			loadRules(y)
-		}
-		fmt.Println("load", time.Since(t)/50)
-		cfg, _, _ := loadRules(y)
-		t = time.Now()
-		for i := 0; i < 50; i++ {
-			w := newWorld(cfg)
-			w.start("env")
-			w.stop()
-		}
-		fmt.Println("start", time.Since(t)/50)
-		t = time.Now()
-		for i := 0; i < 5; i++ {
-			childStart(y)
-		}
-		fmt.Println("child", time.Since(t)/5)
 		return
 	}
 	if len(os.Args) > 1 && os.Args[1] == "child" {
